@@ -176,6 +176,16 @@ func (k c09Key) eq(o c09Key) bool {
 	return true
 }
 
+// c09NilVal stands for a stored nil in the model.
+const c09NilVal = int64(-7)
+
+func c09IsVal(o object.PanObject, v int64) bool {
+	if v == c09NilVal {
+		return isNil(o)
+	}
+	return isInt(o, v)
+}
+
 func c09NewKey(h *H, name string) c09Key {
 	var k c09Key
 	k.kind = rt.Choice(6)
@@ -190,7 +200,7 @@ func c09NewKey(h *H, name string) c09Key {
 		rt.Assume(bits != 1<<63)                                                                    // not -0.0
 		h.Set(name, object.NewPanFloat(k.f))
 	case 2:
-		k.s = []string{"s", "t"}[rt.Choice(2)]
+		k.s = []string{"s", "t", "len", "keys"}[rt.Choice(4)] // incl. names of Map's own properties
 		h.Set(name, object.NewPanStr(k.s))
 	case 3:
 		h.Set(name, object.BuiltInNil)
@@ -237,8 +247,14 @@ func H_C09_map() {
 		k := c09NewKey(h, name)
 		keys = append(keys, k)
 		names = append(names, name)
-		parts = append(parts, fmt.Sprintf("%s: %d", name, v))
-		add(k, v)
+		if i == 0 && rt.Bool() {
+			// the first pair may store nil (a stored nil is a value like any other)
+			parts = append(parts, fmt.Sprintf("%s: nil", name))
+			add(k, c09NilVal)
+		} else {
+			parts = append(parts, fmt.Sprintf("%s: %d", name, v))
+			add(k, v)
+		}
 	}
 	embed := func(prefix string, e int) {
 		if e <= 0 {
@@ -304,7 +320,7 @@ func H_C09_map() {
 	vals, ok := h.EvalNoPanic(`m.values`).(*object.PanArr)
 	rt.Assert(ok && len(vals.Elems) == len(want), "values describes the same pairs as len")
 	for i, w := range want {
-		rt.Assert(isInt(vals.Elems[i], w.v), "the first value given for a key is kept; scalar keys iterate first, in insertion order")
+		rt.Assert(c09IsVal(vals.Elems[i], w.v), "the first value given for a key is kept; scalar keys iterate first, in insertion order")
 	}
 	ks, ok := h.EvalNoPanic(`m.keys`).(*object.PanArr)
 	rt.Assert(ok && len(ks.Elems) == len(want), "keys describes the same pairs as len")
@@ -315,7 +331,7 @@ func H_C09_map() {
 	for i, w := range want {
 		for _, a := range []*object.PanArr{its, its2} {
 			p, ok := a.Elems[i].(*object.PanArr)
-			rt.Assert(ok && len(p.Elems) == 2 && isInt(p.Elems[1], w.v), "items / iteration pair each key with its first value")
+			rt.Assert(ok && len(p.Elems) == 2 && c09IsVal(p.Elems[1], w.v), "items / iteration pair each key with its first value")
 		}
 	}
 	// m[k] for every written key, and for a fresh int key
@@ -327,7 +343,7 @@ func H_C09_map() {
 				break
 			}
 		}
-		rt.Assert(isInt(h.EvalNoPanic(fmt.Sprintf("m[%s]", name)), wv), "m[k] returns the value stored under that key")
+		rt.Assert(c09IsVal(h.EvalNoPanic(fmt.Sprintf("m[%s]", name)), wv), "m[k] returns the value stored under that key")
 	}
 	q := c09Key{kind: 0, i: rt.Int64()}
 	h.Set("q", object.NewPanInt(q.i))
@@ -339,8 +355,8 @@ func H_C09_map() {
 		}
 	}
 	r := h.EvalNoPanic(`m[q]`)
-	if wv >= 0 {
-		rt.Assert(isInt(r, wv), "m[k] returns the value stored under an equal key")
+	if wv >= 0 || wv == c09NilVal {
+		rt.Assert(c09IsVal(r, wv), "m[k] returns the value stored under an equal key")
 	} else {
 		rt.Assert(isNil(r), "m[k] is nil for an absent key")
 	}
